@@ -113,6 +113,31 @@ def do_op(conns, opid):
     return run_one(conns[c].cursor(), sql)
 
 
+def reexecution_probes(conns, m, acc, rp, opid, probes):
+    """One dedicated cursor per (connection, name) that never executes anything but `select $NAME as p`, once per
+    battery: the identical text is re-executed on the same cursor object with nothing in between on that cursor, while
+    the variables change through other cursors of the connection (whatever a cursor remembers about its last statement
+    must not outlive a SET / UNSET issued elsewhere)."""
+    obs = []
+    for ci, conn in enumerate(conns):
+        d = m[ci]
+        for n in NAMES:
+            key = (ci, n)
+            if key not in probes:
+                probes[key] = conn.cursor()
+            got = run_one(probes[key], f"select ${n} as p")
+            obs.append(got)
+            if n in d:
+                ok = got == ("ok", [(d[n],)])
+            else:
+                ok = got[0] == "err" and got[1] == "snowflake.connector.errors.ProgrammingError" and f"Session variable '${n}' does not exist" in got[4]
+            cls = f"reexecuted_on_its_own_cursor,now={'defined' if n in d else 'undefined'}"
+            acc.member("C15.per_connection", cls, not ok)
+            if not ok:
+                acc.violation("C15.per_connection", cls, {"sql": f"select ${n} as p", "connection": ci, "defined": d, "got": got, "after": opid}, rp)
+    return obs
+
+
 def battery(conns, m, acc, rp, opid):
     """Observe everything observable about variables in this state and compare with the model dicts m."""
     cursors = [("c0.cur1", conns[0].cursor(), m[0]), ("c0.cur2", conns[0].cursor(), m[0]), ("c1.cur1", conns[1].cursor(), m[1])]
@@ -246,9 +271,12 @@ def expand(item, acc: core.Acc, tier):
         for s in SETUP:
             cur.execute(s)
         m = ({}, {})
+        probes = {}
+        reexecution_probes(conns, m, acc, {"history": [], "op": None, "then": hist + [opid]}, "connect", probes)
         for i, h in enumerate(hist):
             m = model_apply(m, h)
             do_op(conns, h)
+            reexecution_probes(conns, m, acc, {"history": hist[:i], "op": h, "then": hist[i + 1 :] + [opid]}, h, probes)
             # the battery also runs after every earlier step, in this same session: its statement texts repeat, so an
             # answer remembered from before the next SET / UNSET (and not invalidated by it) shows up after that step
             battery(conns, m, acc, {"history": hist[:i], "op": h, "then": hist[i + 1 :] + [opid]}, h)
@@ -268,7 +296,7 @@ def expand(item, acc: core.Acc, tier):
                 acc.violation("C15.statement_works", kind, {"sql": sql, "got": got}, rp)
         elif got != ("ok", [("Statement executed successfully.",)]):
             acc.violation("C15.statement_works", kind, {"sql": sql, "got": got, "defined": m}, rp)
-        obs = battery(conns, m2, acc, rp, opid)
+        obs = reexecution_probes(conns, m2, acc, rp, opid, probes) + battery(conns, m2, acc, rp, opid)
         acc.obs((hist, opid, got, obs))
         acc.outcome((got[0], tuple(o[0] for o in obs)))
         acc.nontrivial(mkey(m2))
